@@ -11,7 +11,7 @@ from checks import prop, REGISTRY
 U_CONST = {"UpE1": {"u1", "u2", "u3"}, "UpE2": {"u4"}, "Remote": {"e2", "e3"}, "MaxSel": 9}
 U_CONST_T = {"UpE1": {"u1", "u2", "u3", "u4"}, "UpE2": {"u5", "u6"}, "Remote": {"e2", "e3"}, "MaxSel": 13}
 
-C05_INV = ["CountsMatch", "PublishedMatches", "AdvertisedIffConnected"]
+C05_INV = ["CountsMatch", "PublishedMatches", "AdvertisedIffConnected", "ClosedAreRegistered"]
 C15_INV = ["CursorInRange", "NoDuplicates", "RightEndpoint", "WindowFair", "NoStarvation"]
 C05_TRACE = C05_INV + ["MgrMatches", "NoStepViolation"]
 C15_TRACE = C15_INV + ["NoStepViolation"]
@@ -91,16 +91,18 @@ def upstream_family(chk, model_inv, model_props, trace_inv):
     for k, n in st["by_op"].items():
         ops[k] = ops.get(k, 0) + n
     chk.notes["executed_calls_by_action"] = ops
-    for need in ("AddConn", "RemoveConn", "Select", "Quiesce"):
+    for need in ("AddConn", "RemoveConn", "CloseSess", "Select", "Quiesce"):
         if ops.get(need, 0) == 0:
             raise vp.Machinery("vacuous run: the real registry never executed " + need)
 
 
 @prop("C05")
 def c05(chk):
-    chk.rule = ("every sequence of AddConn / RemoveConn (for any upstream ever added, any number of times) / Select "
+    chk.rule = ("every sequence of AddConn / RemoveConn (for any upstream ever added, any number of times) / "
+                "CloseSess (the upstream's yamux session ends before its RemoveConn runs) / Select "
                 "of the bounded Upstreams.tla model = complete transition cover executed on the real "
-                "LoadBalancedManager + cluster.State + syncer + gossip state; seeded random sequences over 12 "
+                "LoadBalancedManager + cluster.State + syncer + gossip state with real ConnUpstreams over real "
+                "yamux sessions; seeded random sequences over 12 "
                 "upstreams; concurrent episodes (race detector on) judged at quiescence")
     chk.assumptions = ["an upstream identity is registered at most once (the server creates a new ConnUpstream "
                        "per connection)"]
